@@ -42,19 +42,43 @@ def rsize(r, tier):
     return r.choice(BIG)
 
 
+def roff(r):
+    """an alignment offset: 0, 8 and 15 more often than the rest"""
+    return r.choice([0, 0, 8, 15, 1, r.below(16), r.below(16), r.below(16)])
+
+
+def place(r):
+    """where the harness puts input and output of a stream call relative to 16-byte boundaries: a third in place (half of
+    them at an offset), otherwise separate buffers whose alignments are chosen INDEPENDENTLY (one aligned + the other
+    not, both misaligned differently, both equal)"""
+    k = r.below(12)
+    if k < 2:
+        return " inplace"
+    if k < 4:
+        return " inplace %d" % r.range(1, 15)
+    if k < 6:
+        return ""                                   # both 16-aligned
+    if k == 6:
+        return " 0 %d" % r.range(1, 15)             # aligned in, misaligned out
+    if k == 7:
+        return " %d 0" % r.range(1, 15)             # misaligned in, aligned out
+    return " %d %d" % (roff(r), roff(r))
+
+
 def stream_op(r, n):
     if n > 600 and r.chance(1, 2):
         return "streamzero %d" % n
-    return "stream %s%s" % (vlib.hx(r.bytes(n)), " inplace" if r.chance(1, 3) else "")
+    return "stream %s%s" % (vlib.hx(r.bytes(n)), place(r))
 
 
 def gen_case(r, tier, long_blocks=0):
     """one life of a stream object: expand, some block encryptions, init, calls, init2 reuse, free"""
     ops = ["expand " + rkey(r)]
     for _ in range(r.below(3)):
-        ops.append("block " + vlib.hx(r.bytes(16)))
+        ops.append(block_op(r))
     if r.chance(1, 6):
-        ops.append("buf %d %s" % (rnonce(r), vlib.hx(r.bytes(rsize(r, tier)))))
+        ops.append("buf %d %s%s" % (rnonce(r), vlib.hx(r.bytes(rsize(r, tier))),
+                                    "" if r.chance(1, 3) else " %d %d" % (roff(r), roff(r))))
     ops.append("init %d" % rnonce(r))
     lives = 1 + r.below(3)
     for life in range(lives):
@@ -88,10 +112,83 @@ def gen_case(r, tier, long_blocks=0):
             for _ in range(r.range(1, 10)):
                 ops.append(stream_op(r, rsize(r, tier)))
         if r.chance(1, 8):
-            ops.append("block " + vlib.hx(r.bytes(16)))
+            ops.append(block_op(r))
     if r.chance(1, 2):
         ops.append("free")
     return ops
+
+
+def block_op(r):
+    k = r.below(4)
+    b = vlib.hx(r.bytes(16))
+    if k == 0:
+        return "block " + b
+    if k == 1:
+        return "block %s %d %d inplace" % ((b,) + (roff(r),) * 2)
+    return "block %s %d %d" % (b, roff(r), roff(r))
+
+
+def align_sweep(rng):
+    """every (input offset, output offset) pair 0..15 x 0..15 plus the 16 in-place offsets, once for a single block
+    encryption and once for a stream call that reaches the whole-block loop (16 <= size), and for crypto_aesctr_buf"""
+    cases = []
+    for i in range(16):
+        r = rng.fork("al%d" % i)
+        ops = ["expand " + rkey(r)]
+        for o in range(16):
+            ops.append("block %s %d %d" % (vlib.hx(r.bytes(16)), i, o))
+        ops.append("block %s %d %d inplace" % (vlib.hx(r.bytes(16)), i, i))
+        cases.append(ops)
+        ops = ["expand " + rkey(r), "init %d" % rnonce(r)]
+        if i % 2:
+            ops.append("stream %s" % vlib.hx(r.bytes(r.range(1, 15))))      # the calls start inside a block
+        for o in range(16):
+            ops.append("stream %s %d %d" % (vlib.hx(r.bytes(r.choice([16, 17, 31, 32, 33, 48, 64, 65, 100]))), i, o))
+        ops.append("stream %s inplace %d" % (vlib.hx(r.bytes(r.choice([16, 33, 48, 70]))), i))
+        ops.append("buf %d %s %d %d" % (rnonce(r), vlib.hx(r.bytes(r.choice([16, 33, 48, 70]))), i, r.below(16)))
+        ops.append("buf %d %s %d %d" % (rnonce(r), vlib.hx(r.bytes(r.choice([16, 33, 48, 70]))), r.below(16), i))
+        cases.append(ops)
+    return cases
+
+
+BIGLIM = (1 << 32) + (1 << 20)
+
+
+def big_ok():
+    """the bigstream buffers are really touched (4 GiB + 2 GiB at the same time on the AES-NI build): do not turn a small
+    machine's OOM killer into a reported violation"""
+    try:
+        for l in open("/proc/meminfo"):
+            if l.startswith("MemAvailable:"):
+                return int(l.split()[1]) >= 12 << 20          # kB
+    except Exception:
+        pass
+    return True
+
+
+def big_cases(r, tier, mult, hw):
+    """thorough tier and failing-input search (mult >= 10) only: ONE crypto_aesctr_stream call of >= 2^32 bytes (and, on
+    the AES-NI build, one of >= 2^31 bytes) followed by a second call on the same object -- what no model run reaches: a byte
+    or block count of one call kept in 32 bits.  The software path needs ~40 s for 4 GiB, so it gets one such call and
+    no second pass (`again`) over the buffer."""
+    if not big_ok() or os.environ.get("VERIF_NO_BIG"):
+        return []
+    quick = tier == "quick" and mult < 10
+    if quick and not hw:
+        return []                       # 4 GiB through the software path takes ~40 s: thorough tier only
+    def one(base, again):
+        k = r.range(0, 1 << 20)
+        if r.chance(1, 2):
+            k &= ~15                               # the call ends on a block boundary / inside a block
+        n = min(base + k, BIGLIM)
+        tail = r.choice([1, 15, 16, 17, 33, 48, 100, 4097])
+        return ["expand " + rkey(r), "bigstream %d %d %d%s" % (rnonce(r), n, tail, " again" if again else ""),
+                stream_op(r, r.choice([1, 16, 33])), stream_op(r, r.choice([0, 15, 17, 64]))]
+    if quick:
+        return [one(1 << 32, False)]    # every run: one single call of 2^32 + k bytes on the AES-NI path (~10 s)
+    if hw:
+        return [one(1 << 32, True), one(1 << 31, True)]
+    return [one(1 << 32, False)]
 
 
 def gen_far(r):
@@ -108,9 +205,11 @@ def gen_far(r):
     return ops
 
 
-def gen_aes(rng, tier, mult):
+def gen_aes(rng, tier, mult, hw=False):
     n = (1000 if tier == "quick" else 6000) * mult
-    cases = []
+    # the long-running cases first: run_cases deals the cases round-robin to its worker processes
+    cases = big_cases(rng.fork("big"), tier, mult, hw)
+    cases += align_sweep(rng.fork("align"))
     for ci in range(max(20, n // 25)):
         cases.append(gen_far(rng.fork("far%d" % ci)))
     for ci in range(n):
@@ -144,10 +243,27 @@ def _sizes(case):
             out.append(0 if t[1] == "-" else len(t[1]) // 2)
         elif t[0] == "streamzero":
             out.append(int(t[1]))
+        elif t[0] == "bigstream":
+            out += [int(t[2]), int(t[3])]
     return out
 
 
+def _offsets(t):
+    """(input offset, output offset) of a block / stream / buf op line, None if it has none"""
+    a = t[2:] if t[0] in ("block", "stream") else t[3:] if t[0] == "buf" else []
+    if a[:1] == ["inplace"]:
+        return (int(a[1]),) * 2 if len(a) > 1 else (0, 0)
+    if len(a) >= 2:
+        return int(a[0]), int(a[1])
+    return (0, 0) if t[0] in ("block", "stream", "buf") else None
+
+
 def nontrivial(case):
+    # a call through a pointer that is not 16-byte aligned, or one call of >= 2^31 bytes
+    for o in case:
+        t = o.split()
+        if t[0] == "bigstream" or (t[0] in ("block", "stream", "buf") and len(t) > 2 and _offsets(t) not in (None, (0, 0))):
+            return True
     sz = _sizes(case)
     # at least one call that straddles a block boundary or a sub-block call followed by more data
     pos, strad = 0, False
@@ -170,8 +286,18 @@ def classify(case, out):
             tags.append("init2_newkey" if len(t) == 3 else "init2_samekey")
         if t[0] == "expand" and len(t) == 2:
             tags.append("key%d" % (len(t[1]) * 4))
-        if t[0] == "stream" and len(t) == 3:
+        if t[0] == "stream" and "inplace" in t[2:]:
             tags.append("inplace")
+        if t[0] == "block" and "inplace" in t[2:]:
+            tags.append("block:inplace")
+        if t[0] in ("block", "stream", "buf"):
+            i, o = _offsets(t)
+            tags.append("%s:align-%s" % (t[0], "both-16" if (i, o) == (0, 0) else "in-16/out-odd" if i == 0 else
+                                         "in-odd/out-16" if o == 0 else "same-odd" if i == o else "different-odd"))
+        if t[0] == "bigstream":
+            tags.append("bigstream:one-call-of-%s-bytes%s" % (">=2^32" if int(t[2]) >= 1 << 32 else ">=2^31" if int(t[2]) >= 1 << 31 else "<2^31",
+                                                               "+second-pass" if "again" in t else ""))
+            tot = int(t[2]) + int(t[3])
         if t[0] in ("stream", "streamzero"):
             s = (0 if t[1] == "-" else len(t[1]) // 2) if t[0] == "stream" else int(t[1])
             tags.append("call=0" if s == 0 else "call<16" if s < 16 else "call=16k" if s % 16 == 0 else "call>16")
@@ -188,10 +314,16 @@ def classify(case, out):
 
 
 RULE = ("lives of one stream object: expand (16/32-byte key) ; block* ; init nonce ; stream calls with sizes from "
-        "{0,1,2,15,16,17,31,32,33,47..65,255..257,4095..4112} and random, a third in place ; up to two init2 re-initialisations "
+        "{0,1,2,15,16,17,31,32,33,47..65,255..257,4095..4112} and random, a third in place (half of those at an offset 1..15 from a 16-byte boundary), "
+        "the others with input and output alignment chosen independently (both aligned / only one aligned / different / equal offsets); "
+        "block and crypto_aesctr_buf ops with offsets likewise ; a sweep of ALL 16x16 (input offset, output offset) pairs + 16 in-place offsets for "
+        "single-block encryption and for stream calls >= 16 bytes, every run ; up to two init2 re-initialisations "
         "(with/without new key) ; every 10th case carries the block counter across 256 blocks, some across 4096, two per component across 65536, thorough many across 65536 and "
-        "131072 (streamzero = one call of n zero bytes, summarised by FNV-1a + last 32 bytes) ; plus out-of-order op streams. "
-        "non-trivial = >= 2 calls and at least one call straddling a 16-byte boundary")
+        "131072 (streamzero = one call of n zero bytes, summarised by FNV-1a + last 32 bytes) ; plus out-of-order op streams ; "
+        "`bigstream` (AES-NI build: one case in every run; more in the thorough tier and in the failing-input search; software build: thorough only) = ONE call of 2^32 + k bytes (k <= 2^20; AES-NI build also 2^31 + k) in place in a lazily "
+        "mapped buffer ending at a guard page, then a second call; judged by Spec.Ctr.streamAt on fixed windows (first 64 bytes, 64 bytes around every "
+        "multiple of 2^30, last 48 bytes, the whole second call) and, on the AES-NI build, by decrypting the whole buffer in 2^20-1-byte calls. "
+        "non-trivial = (>= 2 calls and at least one call straddling a 16-byte boundary) or a misaligned pointer or a bigstream")
 
 
 def have_aesni():
@@ -209,7 +341,8 @@ def components(ctx):
     ]
     if have_aesni():
         comps.append(
-            vlib.Component("aes-ni", "h_aes.c", SRCS_HW, ["aes", "hw"], gen_aes, nontrivial=nontrivial,
+            vlib.Component("aes-ni", "h_aes.c", SRCS_HW, ["aes", "hw"],
+                           lambda rng, tier, mult: gen_aes(rng, tier, mult, hw=True), nontrivial=nontrivial,
                            rule="AES-NI path (default cpu list: crypto_aes_aesni.c, crypto_aesctr_aesni.c bulk loop; "
                                 "round keys printed as L2): same generator",
                            classify=classify, extra=["-DH_AES_RK"], ldflags=["-lcrypto"]))
@@ -223,6 +356,8 @@ def check(ctx):
                "gcc ASan/UBSan as the out-of-bounds detector in the real code"]
     if not have_aesni():
         trusted.append("NOTE: this CPU has no AES-NI; the aes-ni component was not run")
+    if not big_ok():
+        trusted.append("NOTE: less than 12 GiB of memory available; the bigstream cases (one call of >= 2^32 bytes) were not run")
     # the first-use dispatch of crypto_aes.c / crypto_aesctr.c under an allocation failure in the self-test, and key blocks
     # at 8-mod-16 addresses: component defined with C03 (judged by Spec.Aes / Spec.Ctr), run here as well
     from props import c03 as _c03
